@@ -203,6 +203,13 @@ def run_digitize(cfg):
             i = int(numpy.nonzero(got2 != exp2)[0][0])
             viol.append(harness.violation("digitize/compiled-tree", f"digitize/compiled-tree-vs-numpy.digitize/{'increasing' if asc else 'decreasing'}", cfg, {}, dict(bins=b2.tolist(), x=float(x32[i]), tree=float(got2[i]), numpy_digitize=int(exp2[i]), note="x is exactly representable in float32; the edges are not"), True))
         real = td.digitize2tree(b, right=True)
+        # the compiled tree_add_node must hand each argument to the slot the Python code means (the node-table
+        # model ignores "missing values go left" = 0, which decides where x = NaN ends: numpy.digitize puts it
+        # beyond the last increasing / before the first decreasing edge)
+        nanq = real.predict(numpy.array([[numpy.nan]], dtype=numpy.float32))
+        nane = numpy.digitize(numpy.array([numpy.nan]), b, right=True)
+        if not numpy.array_equal(nanq, nane):
+            viol.append(harness.violation("digitize/compiled-tree", f"digitize/compiled-tree-vs-numpy.digitize(nan)/{'increasing' if asc else 'decreasing'}", cfg, {}, dict(bins=b.tolist(), x="nan", tree=float(nanq[0]), numpy_digitize=int(nane[0]), missing_go_to_left=numpy.asarray(getattr(real.tree_, "missing_go_to_left", [])).tolist()[:8]), True))
         rp = real.predict(xs.reshape(-1, 1))
         mp = numpy.array([float(v) for v in _digitize_model(td, b).predict([[float(v)] for v in xs])])
         if numpy.array_equal(rp, mp) and real.tree_.node_count == _digitize_model(td, b).tree_.node_count:
@@ -234,7 +241,7 @@ def replay_digitize(cfg, inputs, label):
         return True, dict(bins=bins.tolist(), raised=f"{type(e).__name__}: {e}")
     # every position relative to the edges (on, between, beyond)
     xs = sorted(set([rm[x]] + [b + d for b in bins.tolist() for d in (-1.0, 0.0, 1.0)]))
-    xs = numpy.array(xs)
+    xs = numpy.array(xs + [numpy.nan])
     got = cl.predict(xs.reshape(-1, 1).astype(numpy.float32))
     exp = numpy.digitize(xs, bins, right=True)
     bad = numpy.nonzero(got != exp)[0]
@@ -274,9 +281,32 @@ def parse_shape(t):
     return p(0)[0]
 
 
-def build(shape, feats, ths, add, tree):
-    """depth-first numbering, as scikit-learn's builder and tree_add_node produce"""
+def build(shape, feats, ths, add, tree, numbering="dfs"):
+    """depth-first numbering, as scikit-learn's depth-first builder and digitize2tree produce; "bfs": level by
+    level, one of the orders of the best-first builder (max_leaf_nodes=k): a left child is not parent+1 there.
+    feats[k]/ths[k] belong to the k-th internal node in depth-first order in both numberings."""
     it = iter(range(len(feats)))
+    if numbering == "bfs":
+        pre = {}
+
+        def number(s, pos):
+            if s is not None:
+                pre[pos] = next(it)
+                number(s[0], pos + "L")
+                number(s[1], pos + "R")
+
+        number(shape, "")
+        queue = [(shape, "", -1, False)]
+        while queue:
+            s, pos, parent, is_left = queue.pop(0)
+            if s is None:
+                add(tree, parent, is_left, True, 0, 0.0, 0, 1, 1.0, 0)
+                continue
+            k = pre[pos]
+            n = add(tree, parent, is_left, False, feats[k], ths[k], 0, 1, 1.0, 0)
+            queue.append((s[0], pos + "L", n, True))
+            queue.append((s[1], pos + "R", n, False))
+        return tree
 
     def rec(s, parent, is_left):
         if s is None:
@@ -300,6 +330,10 @@ def struct_configs(tier):
                 if feats[0] == 1 and k > 1 and all(f == 1 for f in feats):
                     continue  # all-ones is the all-zeros case with an unused column 0: keep one of each kind
                 out.append(dict(kind="struct", shape=shape_str(s), feats=list(feats)))
+    # the same trees numbered level by level (best-first builder): only where it differs from depth-first
+    for c in list(out):
+        if len(c["feats"]) >= 2:
+            out.append(dict(c, numbering="bfs"))
     # history: the same estimator object is refitted (tree_ replaced) with another tree of the SAME
     # node count but another layout; the utilities must describe the tree it holds now
     for c in out:
@@ -318,7 +352,7 @@ def run_struct(cfg):
     def h(e):
         ths = [e.real(f"t_{i}") for i in range(k)]
         x = [e.real("x_0"), e.real("x_1")]
-        tree = build(shape, feats, ths, py_tree_add_node, PyTree())
+        tree = build(shape, feats, ths, py_tree_add_node, PyTree(), cfg.get("numbering", "dfs"))
         # arrays, as the real Tree exposes them
         tree.children_left = numpy.array(tree.children_left)
         tree.children_right = numpy.array(tree.children_right)
@@ -348,7 +382,7 @@ def run_struct(cfg):
             got = ts.predict_leaves(model, [x])
             e.prove_eq(int(got[0]), app, "predict_leaves")
             if cfg.get("shape2") and cfg["shape2"] != cfg["shape"]:
-                tree2 = build(parse_shape(cfg["shape2"]), feats, ths, py_tree_add_node, PyTree())
+                tree2 = build(parse_shape(cfg["shape2"]), feats, ths, py_tree_add_node, PyTree(), cfg.get("numbering", "dfs"))
                 tree2.children_left = numpy.array(tree2.children_left)
                 tree2.children_right = numpy.array(tree2.children_right)
                 tree2.feature = numpy.array(tree2.feature)
@@ -371,7 +405,7 @@ def run_struct(cfg):
     validated, errors = 0, []
     try:
         real, X = _real_tree(cfg, [float(i * 2 + 1) for i in range(k)])
-        pt = build(shape, feats, [float(i * 2 + 1) for i in range(k)], py_tree_add_node, PyTree())
+        pt = build(shape, feats, [float(i * 2 + 1) for i in range(k)], py_tree_add_node, PyTree(), cfg.get("numbering", "dfs"))
         if (
             list(real.tree_.children_left) == pt.children_left
             and list(real.tree_.children_right) == pt.children_right
@@ -393,7 +427,8 @@ def _real_tree(cfg, ths):
     tdm = loader.load("mltree._tree_digitize", with_ext=True)
     shape = parse_shape(cfg["shape"])
     tree = Tree(2, numpy.array([1], dtype=numpy.intp), 1)
-    build(shape, cfg["feats"], ths, tdm.tree_add_node, tree)
+    build(shape, cfg["feats"], ths, tdm.tree_add_node, tree, cfg.get("numbering", "dfs"))
+
     def depth(sh):
         return 0 if sh is None else 1 + max(depth(sh[0]), depth(sh[1]))
 
